@@ -17,6 +17,9 @@ claimed = {
  'C10': dict(
    text="Proof, all inputs: val.Conv and the scalar conversion helpers toInt8..toUInt64, toDecimal64, toBool are verified in exact machine semantics (bit-vectors, IEEE floats) against denotesInt/denotesFloat: a nil error implies the result denotes exactly the source number for every Go integer kind, float32/float64 (integral and in range, no rounding) and numeric strings (strconv.Parse* trusted). Not decided: the list forms (to*List), time.Time and reflect fall-backs, node.NewValue front end.",
    ref="7 (C10)", technique="deductive verification: weakest-precondition VCs from go/ssa (bit-vector + floating-point theories), contracts in val/contracts_verif.go, discharged by z3/cvc5"),
+ 'C12': dict(
+   text="Proof with ghost state, for every failure point: the node.Node interface methods carry ghost bookkeeping contracts (open = successful BeginEdit minus EndEdit calls; failed = some callback returned an error; nodeWrites / writesAfterFail). Against them: Selection.beginEdit tells exactly chain(sel,bubble) nodes on success and leaves open unchanged on failure (already-begun nodes are unwound); endEdit tells all of them whatever fails; Selection.Delete, editor.enter (deferred endEdit inlined at every return), edit, leaf, node, list, set, get, ClearField, selekt, selectListItem, selectVisibleListItem all guarantee: open unchanged at return on EVERY path, a callback error since entry implies a non-nil error return, and no data-changing request is issued after a failure; termination of the bubbling loops is proved. Known finding (recorded, witness replayed): editor.clearOnDifferentChoiceCase swallows a Choose error. Not decided: that the returned error wraps the callback's error (fmt.Errorf %w), lookAhead's panic on a Choose error during reads, clearChoiceCase (works on selection copies; trusted summary), trigger callbacks.",
+   ref="7 (C12)", technique="deductive verification with ghost state and interface contracts: weakest-precondition VCs from go/ssa (defer/closures inlined), recursive specification functions over the selection chain; contracts in node/contracts_verif.go; discharged by z3/cvc5"),
  'C14': dict(
    text="Proof, all module texts, for the hand-written lexer layer: under the lexer representation invariant (0<=start<=pos<=len(input), ring indices inside the token buffer) every lexer method (next, backup, peek, ignore, isEof, acceptWS, acceptToken, acceptRun, acceptString, acceptNumber, acceptInteger, acceptToks, emit, pushToken, popToken, keyword, Position), the definition stack (push grows, pop/peek/peekModule in range), tokenString, trimQuotes and isPrefixedIdent are proved free of index/slice/nil panics and to re-establish the invariant with exact frames (assigns clauses); the scanning loops of acceptWS (all four), acceptString, acceptNumber, acceptInteger, Position, peekModule are proved terminating (decreases len(input)-pos). Not decided: the goyacc table interpreter yyParse and the grammar actions, lexBegin's statement dispatch, resolver/compiler recursion over cyclic typedefs/identities, loader/opener faults.",
    ref="7 (C14)", technique="deductive verification: safety and termination obligations (weakest-precondition VCs from go/ssa, checked mathematical integers with no-overflow obligations); contracts in parser/contracts_verif.go; discharged by z3/cvc5"),
